@@ -892,8 +892,8 @@ Theorem step_offsets_exact : forall rb, rb_steps_ok rb -> forall h,
 Proof.
   intros rb Hok h. destruct (rb_steps_upto_exact rb Hok h) as [Hs Hin].
   exists (map (fun d => d - 1) (rb_steps_upto rb h)). split.
-  - unfold step_offsets_below. destruct (existsb (fun d => d =? 0) (rb_steps_upto rb h)) eqn:E; [|reflexivity].
-    exfalso. apply existsb_exists in E. destruct E as [x [Hx Hx0]]. apply Hin in Hx. lia.
+  - unfold step_offsets_below. rewrite filter_pos_id; [reflexivity|].
+    intros x Hx. apply Hin in Hx. lia.
   - intros A. rewrite in_map_iff. split.
     + intros [d [<- Hd]]. apply Hin in Hd. destruct Hd as [H1 [H2 H3]].
       split; [lia|]. replace (d - 1 + 1) with d by lia. exact H3.
